@@ -718,6 +718,98 @@ def skipMessage (msg : Bytes) : Except Err Nat :=
         | .error e => .error e
         | .ok o3 => skipResources msg w.nr o3
 
+/-! ## The record-level Parser API -/
+
+/-- `Parser.skipResource` right after a successful `XHeader` call (`resHeaderValid`): the body is
+skipped using the Length that the header call remembered. -/
+def skipAfterHeader (msg : Bytes) (bodyOff len : Nat) : Except Err Nat :=
+  if bodyOff + len > msg.length then .error .resourceLen else .ok (bodyOff + len)
+
+/-- How a streaming user handles one record: `Question()`/`Answer()`…; `SkipQuestion()`/`SkipAnswer()`…;
+`AnswerHeader()` then the typed `XResource()` method; `AnswerHeader()` then `SkipAnswer()`. -/
+inductive Step
+  | parse | skip | headerBody | headerSkip
+  deriving DecidableEq, Repr, Inhabited
+
+inductive Item
+  | q (q : Question)
+  | r (r : Resource)
+  | h (h : RHeader)
+  | skipped
+  deriving DecidableEq, Repr, Inhabited
+
+/-- one question under a step (there is no header/body split for questions) -/
+def walkQuestion (msg : Bytes) (off : Nat) (s : Step) : Except Err (Item × Nat) :=
+  match s with
+  | .parse | .headerBody =>
+    match unpackQuestion msg off with
+    | .ok (q, o) => .ok (.q q, o)
+    | .error e => .error e
+  | .skip | .headerSkip =>
+    match skipQuestion msg off with
+    | .ok o => .ok (.skipped, o)
+    | .error e => .error e
+
+/-- one resource record under a step -/
+def walkResource (msg : Bytes) (off : Nat) (s : Step) : Except Err (Item × Nat) :=
+  match s with
+  | .parse =>
+    match unpackResource msg off with
+    | .ok (r, o) => .ok (.r r, o)
+    | .error e => .error e
+  | .headerBody =>
+    match unpackRHeader msg off with
+    | .error e => .error e
+    | .ok (h, o1) =>
+      match unpackBody msg o1 h.typ h.length with
+      | .error e => .error e
+      | .ok b => .ok (.r { hdr := h, body := b }, o1 + h.length)
+  | .skip =>
+    match skipResource msg off with
+    | .ok o => .ok (.skipped, o)
+    | .error e => .error e
+  | .headerSkip =>
+    match unpackRHeader msg off with
+    | .error e => .error e
+    | .ok (h, o1) =>
+      match skipAfterHeader msg o1 h.length with
+      | .ok o => .ok (.h h, o)
+      | .error e => .error e
+
+def nextStep : List Step → Step × List Step
+  | [] => (.parse, [])
+  | s :: r => (s, r)
+
+/-- `n` records of one section, one script step per record (default: parse) -/
+def walkSection (one : Bytes → Nat → Step → Except Err (Item × Nat)) (msg : Bytes) :
+    Nat → Nat → List Step → Except Err (List Item × Nat × List Step)
+  | 0, off, sc => .ok ([], off, sc)
+  | n + 1, off, sc =>
+    match one msg off (nextStep sc).1 with
+    | .error e => .error e
+    | .ok (it, o1) =>
+      match walkSection one msg n o1 (nextStep sc).2 with
+      | .error e => .error e
+      | .ok (its, o2, sc') => .ok (it :: its, o2, sc')
+
+/-- a whole message through the record-level API under a script: items and final offset -/
+def walkMessage (msg : Bytes) (sc : List Step) : Except Err (List Item × Nat) :=
+  match unpackWireHeader msg with
+  | .error e => .error e
+  | .ok w =>
+    match walkSection walkQuestion msg w.nq 12 sc with
+    | .error e => .error e
+    | .ok (i1, o1, s1) =>
+      match walkSection walkResource msg w.na o1 s1 with
+      | .error e => .error e
+      | .ok (i2, o2, s2) =>
+        match walkSection walkResource msg w.nu o2 s2 with
+        | .error e => .error e
+        | .ok (i3, o3, s3) =>
+          match walkSection walkResource msg w.nr o3 s3 with
+          | .error e => .error e
+          | .ok (i4, o4, _) => .ok (i1 ++ i2 ++ i3 ++ i4, o4)
+
 /-- What `Pack` leaves in the message it was called on (and what `Unpack` of the
 packed bytes returns): header `Type` from the body, `Length` = packed body length. -/
 def normResource (r : Resource) (len : Nat) : Resource :=
